@@ -11,6 +11,22 @@ def load_known():
     return json.load(open(p)).get('findings', [])
 
 
+class Scoped:
+    """view of a Check that prefixes rule ids and violation keys: lets one property re-run clauses owned by another on the same tree"""
+    def __init__(self, ck, prefix):
+        self._ck = ck; self._p = prefix
+        self.assumptions = []; self.explanation = ''; self.trusted = []
+
+    def rule(self, rid, text): self._ck.rule(self._p + rid, text)
+    def ok(self, rule, instance, where=None, detail=None, nontrivial=True): self._ck.ok(self._p + rule, instance, where, detail, nontrivial)
+    def reviewed(self, rule, instance, where=None, detail=None): self._ck.reviewed(self._p + rule, instance, where, detail)
+    def violation(self, rule, key, where, msg, detail=None): self._ck.violation(self._p + rule, self._p + key, where, msg, detail)
+    def unanalysable(self, what, msg): self._ck.unanalysable(self._p + what, msg)
+    def count(self, k, n=1): self._ck.count(self._p + k, n)
+    def floor(self, what, got, want): self._ck.floor(self._p + what, got, want)
+    def sample(self, s): self._ck.sample(s)
+
+
 class Check:
     def __init__(self, pid, tier, seed=0):
         self.pid = pid; self.tier = tier; self.seed = seed
